@@ -32,18 +32,20 @@ CBMC_SMT_FLAGS = ['--unwinding-assertions', '--drop-unused-functions', '--no-mal
 NCPU = int(os.environ.get('VERIF_JOBS', '0')) or os.cpu_count() or 4
 
 
+def _wrap(cmd, mem_gb):
+    # memory cap through prlimit(1); preexec_fn is not safe in a multi-threaded parent (fork deadlocks)
+    if mem_gb:
+        return ['prlimit', '--as=%d' % int(mem_gb * (1 << 30))] + list(cmd)
+    return list(cmd)
+
+
 def sh(cmd, timeout=None, cwd=None, mem_gb=None, stdin=None):
     """run, return (rc, stdout, stderr, seconds); rc = 'timeout' on timeout"""
     t0 = time.time()
-
-    def lim():
-        if mem_gb:
-            b = int(mem_gb * (1 << 30))
-            resource.setrlimit(resource.RLIMIT_AS, (b, b))
-        os.setsid()
     try:
-        p = subprocess.Popen(cmd, stdout=subprocess.PIPE, stderr=subprocess.PIPE, cwd=cwd, text=True,
-                             preexec_fn=lim, stdin=subprocess.PIPE if stdin is not None else subprocess.DEVNULL)
+        p = subprocess.Popen(_wrap(cmd, mem_gb), stdout=subprocess.PIPE, stderr=subprocess.PIPE, cwd=cwd, text=True,
+                             start_new_session=True,
+                             stdin=subprocess.PIPE if stdin is not None else subprocess.DEVNULL)
         try:
             o, e = p.communicate(stdin, timeout=timeout)
         except subprocess.TimeoutExpired:
@@ -179,27 +181,68 @@ def split_vc(text):
     return head, leaves
 
 
-def run_solver(path, solver, timeout, mem_gb=8):
+def _solver_cmd(path, solver):
     if solver == 'z3':
-        cmd = ['z3-new', path]
-    elif solver == 'z3old':
-        cmd = ['z3', path]
-    elif solver == 'cvc5':
-        cmd = [os.path.join(TOOLS, 'cvc5run.py'), path]
-    elif solver == 'cvc5old':
-        cmd = ['cvc5', path]
-    else:
-        raise ValueError(solver)
-    rc, o, e, dt = sh(cmd, timeout=timeout, mem_gb=mem_gb)
-    if rc == 'timeout':
-        return 'timeout', dt
+        return ['z3-new', path]
+    if solver == 'z3old':
+        return ['z3', path]
+    if solver == 'cvc5':
+        return [os.path.join(TOOLS, 'cvc5run.py'), path]
+    if solver == 'cvc5old':
+        return ['cvc5', path]
+    raise ValueError(solver)
+
+
+def _classify(o, e):
     txt = (o or '') + (e or '')
     if '(error' in txt:
-        return 'error: ' + txt.strip()[:300], dt
+        return 'error: ' + txt.strip()[:300]
     first = (o or '').strip().split('\n')[0] if o else ''
     if first in ('sat', 'unsat', 'unknown'):
-        return first, dt
-    return 'error: ' + txt.strip()[:300], dt
+        return first
+    return 'error: ' + txt.strip()[:300]
+
+
+def run_solver(path, solver, timeout, mem_gb=8):
+    """solver 'portfolio' = z3 5.1 and z3 4.8.12 side by side (their strengths differ wildly on the
+    non-linear queries); the first definite answer (sat/unsat) wins, the other process is killed.
+    If both answer they must agree, otherwise the result is an error (inconclusive)."""
+    if solver != 'portfolio':
+        rc, o, e, dt = sh(_solver_cmd(path, solver), timeout=timeout, mem_gb=mem_gb)
+        if rc == 'timeout':
+            return 'timeout', dt
+        return _classify(o, e), dt
+    t0 = time.time()
+
+    procs = {}
+    for sv in ('z3', 'z3old'):
+        procs[sv] = subprocess.Popen(_wrap(_solver_cmd(path, sv), mem_gb), stdout=subprocess.PIPE, stderr=subprocess.PIPE, text=True,
+                                     start_new_session=True, stdin=subprocess.DEVNULL)
+    answers = {}
+    while procs and time.time() - t0 < timeout:
+        for sv, p in list(procs.items()):
+            if p.poll() is not None:
+                o, e = p.communicate()
+                answers[sv] = _classify(o, e)
+                del procs[sv]
+        if any(a in ('sat', 'unsat') for a in answers.values()):
+            break
+        time.sleep(0.02)
+    for p in procs.values():
+        try:
+            os.killpg(p.pid, 9)
+        except Exception:
+            p.kill()
+        p.communicate()
+    dt = time.time() - t0
+    definite = set(a for a in answers.values() if a in ('sat', 'unsat'))
+    if len(definite) == 2:
+        return 'error: solvers disagree ' + str(answers), dt
+    if definite:
+        return definite.pop(), dt
+    if not answers:
+        return 'timeout', dt
+    return list(answers.values())[0] if procs == {} and len(answers) == 2 else 'timeout', dt
 
 
 class Runner:
@@ -265,7 +308,8 @@ class Runner:
         return r
 
     def run_sat_once(self, q, gb, want_trace=False):
-        cmd = ['cbmc', gb] + CBMC_SAT_FLAGS + self.unwind_args(q) + q.extra_cbmc + ['--json-ui']
+        flags = [f for f in CBMC_SAT_FLAGS if not (getattr(q, 'no_ptr_overflow', False) and f == '--pointer-overflow-check')]
+        cmd = ['cbmc', gb] + flags + self.unwind_args(q) + q.extra_cbmc + ['--json-ui']
         if q.solver == 'cadical':
             cmd += ['--sat-solver', 'cadical']
         elif q.solver == 'kissat':
@@ -286,7 +330,7 @@ class Runner:
         return {'status': 'pass' if not fails else 'fail', 'nprops': len(props), 'fails': fails,
                 'traces': traces, 'time': dt}
 
-    def run_smt(self, q, gb, solver='z3', split_on_fail=True):
+    def run_smt(self, q, gb, solver='portfolio', split_on_fail=True):
         vc = gb[:-3] + '.smt2'
         cmd = ['cbmc', gb] + CBMC_SMT_FLAGS + self.unwind_args(q) + q.extra_cbmc + \
               ['--smt2', '--fpa', '--outfile', vc]
@@ -298,6 +342,23 @@ class Runner:
             if 'VERIFICATION SUCCESSFUL' in o:   # everything simplified away during symex
                 return {'status': 'pass', 'nprops': 0, 'time': dt, 'trivial': True}
             return {'status': 'inconclusive', 'why': 'no VC: ' + (o + e)[-400:], 'time': dt}
+        raw = open(vc).read()
+        if '(check-sat' not in raw:
+            # symex decided everything by simplification; cbmc says which way
+            os.unlink(vc)
+            if 'VERIFICATION SUCCESSFUL' in o:
+                return {'status': 'pass', 'nprops': 0, 'time': dt, 'trivial': True}
+            if 'VERIFICATION FAILED' in o:
+                return {'status': 'fail', 'time': dt, 'trivial': True}
+            # cbmc 6.11 stops silently after the SMT header when no verification condition is left after
+            # simplification; ask it again without --smt2 for the explicit verdict (cheap: nothing to solve)
+            cmd2 = ['cbmc', gb] + CBMC_SMT_FLAGS + self.unwind_args(q) + q.extra_cbmc
+            rc2, o2, e2, dt2 = sh(cmd2, timeout=q.timeout, mem_gb=12)
+            if rc2 != 'timeout' and 'VERIFICATION SUCCESSFUL' in o2:
+                return {'status': 'pass', 'nprops': 0, 'time': dt + dt2, 'trivial': True}
+            if rc2 != 'timeout' and 'VERIFICATION FAILED' in o2:
+                return {'status': 'fail', 'time': dt + dt2, 'trivial': True}
+            return {'status': 'inconclusive', 'why': 'empty VC and no verdict: ' + (o + e)[-300:], 'time': dt}
         sys.path.insert(0, TOOLS)
         import fp2alg
         try:
